@@ -147,7 +147,14 @@ func (p *Prog) E3b() []E3bIssue {
 					for _, k := range ks {
 						inf := byAtom[k]
 						if inf.stale != nil && !inf.fresh {
-							life, ser := false, false
+							life, ser, toctou := false, false, false
+							// test-and-set of ONE field across two critical sections: the write
+							// is conditional on a stale read of the very field it writes, and the
+							// function did not itself claim the field in the earlier section
+							// (the in-progress-token idiom: active/recvWait set there, cleared here)
+							if inf.cond == wkey && !writesFieldUnder(e1, fn, wkey, inf.stale) {
+								toctou = true
+							}
 							if j := strings.LastIndex(wkey, "."); j > 0 {
 								t, w := p.closeTouches(wkey[:j])
 								life = t[wkey] && w[inf.cond] && fn.Name() != "Close"
@@ -166,6 +173,9 @@ func (p *Prog) E3b() []E3bIssue {
 										}
 									}
 								}
+							}
+							if toctou && !ser {
+								life = true
 							}
 							out = append(out, E3bIssue{Fn: fn, Write: in, Load: inf.stale, Field: wkey, Cond: inf.cond, Atom: k, Lock: h.Abs, Lifecycle: life, Serialised: ser})
 							if ser {
@@ -354,4 +364,23 @@ func (p *Prog) callSiteLocks(fn *ssa.Function) map[string]bool {
 		}
 	}
 	return out
+}
+
+// writesFieldUnder: fn stores to field key inside the critical section in which the load
+// ld was made (same acquisition of some lock).
+func writesFieldUnder(e1 *e1Result, fn *ssa.Function, key string, ld ssa.Instruction) bool {
+	found := false
+	EachInstr(fn, func(in ssa.Instruction) {
+		if found || writtenFieldKey(in) != key {
+			return
+		}
+		for _, a := range e1.held[in] {
+			for _, b := range e1.held[ld] {
+				if a.At == b.At {
+					found = true
+				}
+			}
+		}
+	})
+	return found
 }
